@@ -1,4 +1,5 @@
 import QM.ConvShape
+import QM.ConvFrame
 /-! # C07 — user sections pass through unchanged; the Quadlet section is kept as X-<name>
 
 Statements are about the ordered-multimap model of the unit (`MM.entriesOf svc S` = the entries of section `S`
@@ -76,5 +77,40 @@ theorem C07_image_xsection (E : Env) (path : Str) (u svc : SUnit) (r : Str) (hnd
       entriesOf_rename _ _ _ _ (by decide), if_pos rfl]
   · rw [entriesOf_oneShot_ne _ _ _ (by decide), entriesOf_addEntry, if_neg (by decide), entriesOf_addS,
       if_neg (by decide), entriesOf_rename _ _ _ _ (by decide), if_pos rfl]
+
+/-- the statement about sections that every converter satisfies (`own` = the unit's Quadlet section, `xown` = "X-" ++ own):
+    every section other than own, X-own, Quadlet, X-Quadlet, Unit and Service is copied verbatim and in order; the own
+    section is kept verbatim under X-own after whatever the user already had there, [Quadlet] under [X-Quadlet]; no
+    section named own or Quadlet remains -/
+def SectionsKept (u svc : SUnit) (own xown : Str) : Prop :=
+  (∀ S, S ∉ [own, xown, s "Quadlet", s "X-Quadlet", s "Unit", s "Service"] → entriesOf svc S = entriesOf u S) ∧
+  entriesOf svc xown = entriesOf u xown ++ entriesOf u own ∧
+  entriesOf svc (s "X-Quadlet") = entriesOf u (s "X-Quadlet") ++ entriesOf u (s "Quadlet") ∧
+  entriesOf svc own = [] ∧ entriesOf svc (s "Quadlet") = []
+
+theorem C07_volume_sections (E : Env) (path : Str) (u svc : SUnit) (n : Str) (hnd : (u.map Prod.fst).Nodup)
+    (h : fromVolume E path u = .ok (svc, n)) : SectionsKept u svc (s "Volume") (s "X-Volume") :=
+  sections_of_frame path u svc _ _ hnd (by decide) (by decide) (by decide) (frame_fromVolume E path u svc n h)
+
+theorem C07_network_sections (E : Env) (path : Str) (u svc : SUnit) (n : Str) (hnd : (u.map Prod.fst).Nodup)
+    (h : fromNetwork E path u = .ok (svc, n)) : SectionsKept u svc (s "Network") (s "X-Network") :=
+  sections_of_frame path u svc _ _ hnd (by decide) (by decide) (by decide) (frame_fromNetwork E path u svc n h)
+
+theorem C07_pod_sections (E : Env) (path : Str) (u svc : SUnit) (cs : List Str) (hnd : (u.map Prod.fst).Nodup)
+    (h : fromPod E path u cs = .ok svc) : SectionsKept u svc (s "Pod") (s "X-Pod") :=
+  sections_of_frame path u svc _ _ hnd (by decide) (by decide) (by decide) (frame_fromPod E path u svc cs h)
+
+theorem C07_kube_sections (E : Env) (path : Str) (u svc : SUnit) (hnd : (u.map Prod.fst).Nodup)
+    (h : fromKube E path u = .ok svc) : SectionsKept u svc (s "Kube") (s "X-Kube") :=
+  sections_of_frame path u svc _ _ hnd (by decide) (by decide) (by decide) (frame_fromKube E path u svc h)
+
+theorem C07_build_sections (E : Env) (path : Str) (u svc : SUnit) (hnd : (u.map Prod.fst).Nodup)
+    (h : fromBuild E path u = .ok svc) : SectionsKept u svc (s "Build") (s "X-Build") :=
+  sections_of_frame' (buildStart path u) u svc _ _ (fun S hS => entriesOf_buildStart_ne path u hnd S hS)
+    (by decide) (by decide) (by decide) (frame_fromBuild E path u svc h)
+
+theorem C07_container_sections (E : Env) (path : Str) (u svc : SUnit) (link : Option (Str × Str)) (hnd : (u.map Prod.fst).Nodup)
+    (h : fromContainer E path u = some (.ok (svc, link))) : SectionsKept u svc (s "Container") (s "X-Container") :=
+  sections_of_frame path u svc _ _ hnd (by decide) (by decide) (by decide) (frame_fromContainer E path u svc link h)
 
 end Cv
